@@ -73,15 +73,6 @@ func registerC19() {
 					res.Stuck = "" // budget exhaustion of a wrapped run is not C19's business
 				}
 				vs := append(poolViolations(res), newRaceViolations()...)
-				if sp, ok := plan.(*SrvPlan); ok && hasPriorityOp(sp) {
-					// PRIORITY frames on ids without an open request allocate stray stream entries (C08/C13 known finding);
-					// what the pool tracker then sees is a consequence of that and is keyed separately
-					for _, v := range vs {
-						if strings.HasPrefix(v.Sig, "pool-") {
-							v.Sig = "with-priority/" + v.Sig
-						}
-					}
-				}
 				if len(vs) > 0 {
 					res.Viol = vs[0]
 					res.Extra = vs[1:]
@@ -92,17 +83,6 @@ func registerC19() {
 			Decode: base.Decode,
 		})
 	}
-}
-
-func hasPriorityOp(p *SrvPlan) bool {
-	for _, l := range p.Lanes {
-		for _, op := range l.Ops {
-			if op.Kind == "priority" {
-				return true
-			}
-		}
-	}
-	return false
 }
 
 func cliFamily(prop, name string, weight int, gen func(*RNG) *CliPlan, online func(*CliWorld) *Violation, final func(*CliWorld) *Violation, post func(*CliWorld, *RunResult)) *Family {
@@ -129,7 +109,7 @@ func init() {
 	})
 	register(srvFamily("C18", "c18-server", 3, GenC18Server, c18ServerOnline, c18ServerFinal,
 		func(w *SrvWorld, r *RunResult) { r.Nontrivial = c18ServerNontrivial(w) }))
-	register(srvFamily("C18", "c18-server-all", 1, GenC18ServerAll, c18ServerOnline, c18ServerFinal,
+	register(srvFamily("C18", "c18-server-all", 3, GenC18ServerAll, c18ServerOnline, c18ServerFinal,
 		func(w *SrvWorld, r *RunResult) { r.Nontrivial = c18ServerNontrivial(w) }))
 	register(srvFamily("C18", "c18-server-own", 1, GenC18ServerOwn, c18ServerOnline, c18ServerFinal,
 		func(w *SrvWorld, r *RunResult) { r.Nontrivial = len(w.Frames) > 2 }))
@@ -143,7 +123,7 @@ func init() {
 		func(w *CliWorld, r *RunResult) { r.Nontrivial = c14ClientNontrivial(w) }))
 	register(cliFamily("C14", "c14-client-pad-empty", 1, GenC14ClientPadEmpty, c14ClientOnline, c14ClientFinal,
 		func(w *CliWorld, r *RunResult) { r.Nontrivial = c14ClientNontrivial(w) }))
-	register(&Family{Prop: "C08", Name: "c08-all", Weight: 1,
+	register(&Family{Prop: "C08", Name: "c08-all", Weight: 3,
 		Gen:    func(r *RNG) any { p := GenC08All(r); p.Family = "c08-all"; return p },
 		Run:    func(plan any, tape *Tape, ss uint64) *RunResult { return RunC08(plan.(*SrvPlan), tape, ss) },
 		Decode: func(b json.RawMessage) (any, error) { p := &SrvPlan{}; return p, json.Unmarshal(b, p) },
@@ -165,7 +145,7 @@ func init() {
 	})
 	register(cliFamily("C07", "c07", 1, GenC07, c07Online, c07Final,
 		func(w *CliWorld, r *RunResult) { r.Nontrivial = c07Nontrivial(w) }))
-	register(cliFamily("C02", "c02-split", 1, GenC02Split, nil, func(w *CliWorld) *Violation { return c02Final(w, "C02") },
+	register(cliFamily("C02", "c02-split", 3, GenC02Split, nil, func(w *CliWorld) *Violation { return c02Final(w, "C02") },
 		func(w *CliWorld, r *RunResult) { r.Nontrivial = c02Nontrivial(w) }))
 	register(cliFamily("C02", "c02", 4, GenC02, nil, func(w *CliWorld) *Violation { return c02Final(w, "C02") },
 		func(w *CliWorld, r *RunResult) { r.Nontrivial = c02Nontrivial(w) }))
@@ -189,7 +169,7 @@ func init() {
 		func(w *SrvWorld, r *RunResult) { r.Nontrivial = c01Nontrivial(w) }))
 	register(srvFamily("C09", "c09", 5, GenC09, c09Online, c09Final,
 		func(w *SrvWorld, r *RunResult) { r.Nontrivial = c09Nontrivial(w) }))
-	register(srvFamily("C09", "c09-all", 1, GenC09All, c09Online, c09Final,
+	register(srvFamily("C09", "c09-all", 5, GenC09All, c09Online, c09Final,
 		func(w *SrvWorld, r *RunResult) { r.Nontrivial = c09Nontrivial(w) }))
 	register(srvFamily("C06", "c06", 1, GenC06, c06Online, c06Final,
 		func(w *SrvWorld, r *RunResult) { r.Nontrivial = c06Nontrivial(w) }))
